@@ -54,10 +54,11 @@ CLAIMS = {
                  "survives the serializer unchanged. Correspondence with an independent Python oracle computed from the JSON text: exact integers, "
                  "exact doubles in the 15-digit/+-22 class, <= 2 ulp otherwise, strings, order, duplicates, re-parse equal, Value round trips.",
                  "5 (C08)", "Partial: serde_json's number reader and zmij's printer are third-party code, modelled exactly and validated, not proved."),
-    "C09": claim("Correspondence with an independent expectation computed in Python (raw-string, backtick-literal and quoted-identifier round "
-                 "trips; exhaustive delimiter/backslash juxtapositions up to length 4/6); the lexer model is the transcription of lexer.rs.",
-                 "5 (C09)", "Partial: no theorem closed yet for this property (the round-trip lemmas are stated in DESIGN.md as _todo).",
-                 "model/implementation correspondence + independent round-trip oracle (theorems pending)"),
+    "C09": claim("Theorems (Props/C09.v): the raw-string spelling of every backslash-free string lexes to the literal holding exactly that string; "
+                 "unquoted identifiers lex to their name; an unterminated quoted form is never closed. Correspondence with an independent expectation "
+                 "computed in Python (raw-string, backtick-literal and quoted-identifier round trips over delimiters, backslashes, controls and astral "
+                 "characters; exhaustive delimiter/backslash juxtapositions up to length 4/6).",
+                 "5 (C09)", "Partial: strings with backslashes, backtick literals and quoted identifiers (JSON decoding) are decided by correspondence."),
     "C10": claim("Theorems (Props/C10.v): == is structural (numbers by tolerant double equality, arrays element-wise, objects by keys and members, "
                  "type-gated), reflexive, symmetric (incl. IEEE lemmas on SpecFloat); != is its negation; ordering is boolean iff both numbers, is the "
                  "exact IEEE order; trichotomy and <= decomposition for well-separated numbers. Correspondence + the laws evaluated on the implementation.",
